@@ -76,6 +76,7 @@ impl<'a> PerTypeLookup<'a> {
 		}
 		let mut per_direct_union_variant = [NoneSomeOrConflict::None; N_VARIANTS];
 		let per_name = std::cell::RefCell::new(HashMap::new());
+		let per_name_aliases = std::cell::RefCell::new(Vec::new());
 		for (discriminant, &schema_node) in variants.iter().enumerate() {
 			let discriminant: i64 = discriminant
 				.try_into()
@@ -121,13 +122,20 @@ impl<'a> PerTypeLookup<'a> {
 					}
 				}
 			};
+			// Secondary names (short name of a namespaced type, `Decimal` for a decimal
+			// of `fixed` representation) must never take the place of the name that
+			// designates another variant, so they are only registered once all the
+			// primary names are known.
+			let register_alias = |alias: Cow<'static, str>| {
+				per_name_aliases
+					.borrow_mut()
+					.push((alias, (discriminant, schema_node)));
+			};
 			let register_name = |name: &Name| {
-				let mut per_name = per_name.borrow_mut();
-				per_name.insert(
-					Cow::Owned(name.name().to_owned()),
-					(discriminant, schema_node),
-				);
-				per_name.insert(
+				if name.name() != name.fully_qualified_name() {
+					register_alias(Cow::Owned(name.name().to_owned()));
+				}
+				per_name.borrow_mut().insert(
 					Cow::Owned(name.fully_qualified_name().to_owned()),
 					(discriminant, schema_node),
 				);
@@ -222,12 +230,12 @@ impl<'a> PerTypeLookup<'a> {
 					register(UnionVariantLookupKey::SeqOrTupleOrTupleStruct, 2);
 				}
 				SchemaNode::Decimal(Decimal { repr, .. }) => {
-					register_type_name("Decimal");
 					match repr {
 						DecimalRepr::Fixed(fixed) => {
 							register_name(&fixed.name);
+							register_alias(Cow::Borrowed("Decimal"));
 						}
-						DecimalRepr::Bytes => {}
+						DecimalRepr::Bytes => register_type_name("Decimal"),
 					}
 					register(UnionVariantLookupKey::Integer, 5);
 					register(UnionVariantLookupKey::Integer4, 5);
@@ -297,8 +305,12 @@ impl<'a> PerTypeLookup<'a> {
 			} => Some(discriminant_and_schema_node),
 			NoneSomeOrConflict::Conflict { .. } => None,
 		});
+		let mut per_name = per_name.into_inner();
+		for (alias, discriminant_and_schema_node) in per_name_aliases.into_inner() {
+			per_name.entry(alias).or_insert(discriminant_and_schema_node);
+		}
 		PerTypeLookup {
-			per_name: per_name.into_inner(),
+			per_name,
 			per_direct_union_variant,
 		}
 	}
